@@ -90,6 +90,16 @@ def cab_scenarios(rng, tier):
         c.exp_order = list(range(len(c.members)))
         for mi in c.exp_order: sc.op("cab_extract", "c0", mi, "out%d" % mi)
         out.append((c, sc, "search stub=%d searchbuf=%d" % (len(stub), sbuf)))
+    # directed (own generator state, the same on every run): a 1 KiB-window Quantum folder whose first member is shorter than the window and
+    # ends inside a match that wraps the window end - the recorded finding qtm-small-window-wrap (known_findings.json)
+    from vlib import cabfmt
+    r2 = random.Random(2)
+    c = gen.CabCase(); fo = cabfmt.Folder(("qtm", 10), [cabfmt.Member(b"q0.bin", length=1000), cabfmt.Member(b"q1.bin", length=1500)])
+    c.folders = [fo]; c.files["in0.cab"] = cabfmt.build_single([fo], r2, with_ck=True); c.parts = ["in0.cab"]; c.members = list(fo.members)
+    sc = scenario.Scn().file("in0.cab", c.files["in0.cab"]).op("cab_new").op("cab_open", "c0", "in0.cab")
+    c.exp_order = [0, 1]
+    for mi in c.exp_order: sc.op("cab_extract", "c0", mi, "out%d" % mi)
+    out.append((c, sc, "directed small-window Quantum"))
     for i in range(n2):
         c = gen.cab_set(rng)
         sc = scenario.Scn()
